@@ -351,3 +351,63 @@ Proof.
         assert (Hne : existsb is_resp (map snd pre) = true) by (rewrite Hp, existsb_app, Hr; reflexivity).
         apply existsb_resp_resps in Eb. congruence.
 Qed.
+
+(* ------------------------------------------------------------------------------------------- *)
+(* first on the timed layer *)
+
+Lemma accepts_first : forall st pr r, template_of st = TFirst -> accepts st pr r = true.
+Proof. intros st pr r H. destruct st; try discriminate H; destruct r; reflexivity. Qed.
+
+Definition f_finished (s : @fst_state value) : bool := match s with FDone _ => true | FWait => false end.
+
+Lemma first_outcome_spec : forall st pr ps r t,
+  template_of st = TFirst -> In (r, t) (outcomes st pr ps) ->
+  t <= p_timeout pr /\
+  ((exists p0 v, r = result_of (Some v) /\ In p0 ps /\ gives pr p0 v /\ pv_time p0 = t
+      /\ forall p1 v1, In p1 ps -> gives pr p1 v1 -> t <= pv_time p1)
+   \/ (r = RErr /\ t = p_timeout pr /\ forall p1 v1, In p1 ps -> gives pr p1 v1 -> p_timeout pr <= pv_time p1)).
+Proof.
+  intros st pr ps r t Et H. unfold outcomes in H. rewrite Et in H.
+  apply in_map_iff in H as [sch [H Hs]].
+  assert (Habs : forall (s : @fst_state value) e, f_finished s = true -> fstep s e = s).
+  { intros [|o] e Hf; [discriminate | reflexivity]. }
+  pose proof (sch_hard _ _ _ _ Hs) as Hh. pose proof (proj1 (timeline_schedule _ _ _ _ Hs)) as Hso.
+  destruct (trun_within fstep f_finished Habs (p_timeout pr) sch FWait) as [H1 H2]; auto.
+  { intros es He. destruct (in_hard_f es He) as [o Ho]. unfold frun in Ho. rewrite Ho. reflexivity. }
+  destruct (trun_decision _ _ Habs sch _ Hso H1) as [pre [post (E & Hf & Hpre & Hpost & Hmin & Hlast)]].
+  change (fun s : fst_state => match s with FDone _ => true | FWait => false end) with f_finished in H.
+  destruct (trun fstep f_finished FWait sch) as [s t']. cbn [fst snd] in *.
+  assert (Hin_sch : forall x, In x pre -> In x sch) by (intros x Hx; rewrite E; apply in_or_app; left; exact Hx).
+  assert (Hall : forall p1 v1, In p1 ps -> gives pr p1 v1 -> In (pv_time p1, EResp (pv_id p1) v1) sch).
+  { intros p1 v1 Hp1 Hg. apply (gives_ok_event st pr ps sch p1 v1 Hs Hp1). split; [exact Hg | apply accepts_first; exact Et]. }
+  destruct s as [|o]; [discriminate|]. injection H as <- <-. split; [exact H2|].
+  destruct Hlast as [[-> _] | [pre' [te (-> & Ht)]]]; [discriminate Hf|].
+  assert (Hpre' : existsb is_resp (map snd pre') = false /\ existsb is_hard (map snd pre') = false).
+  { apply frun_wait_iff. specialize (Hmin (map snd pre') [snd te]). rewrite map_app in Hmin.
+    specialize (Hmin eq_refl ltac:(discriminate)). unfold frun. destruct (fold_left fstep (map snd pre') FWait); [reflexivity | discriminate]. }
+  destruct Hpre' as [Hnr Hnh].
+  assert (Hlast : fstep FWait (snd te) = FDone o).
+  { rewrite map_app, fold_left_app in Hf. cbn [map fold_left] in Hf.
+    rewrite (frun_wait _ Hnr Hnh) in Hf. symmetry. exact Hf. }
+  assert (Hnot_pre' : forall p1 v1, In (pv_time p1, EResp (pv_id p1) v1) pre' -> False).
+  { intros p1 v1 Hx. assert (G : existsb is_resp (map snd pre') = true); [|congruence].
+    apply existsb_exists. exists (EResp (pv_id p1) v1). split; [|reflexivity].
+    apply in_map_iff. exists (pv_time p1, EResp (pv_id p1) v1). auto. }
+  destruct te as [tt e]. cbn [fst snd] in *. subst t'.
+  destruct e as [p v|p| |]; cbn in Hlast; try discriminate; injection Hlast as <-.
+  - left. assert (Hte : In (tt, EResp p v) sch) by (apply Hin_sch; apply in_or_app; right; left; reflexivity).
+    destruct (event_gives_ok _ _ _ _ _ _ _ Hs Hte) as [p0 (Hp0 & [Hg _] & ->)].
+    exists p0, v. split; [reflexivity|]. split; [exact Hp0|]. split; [exact Hg|]. split; [reflexivity|].
+    intros p1 v1 Hp1 Hg1. pose proof (Hall p1 v1 Hp1 Hg1) as Hx. rewrite E in Hx.
+    apply in_app_or in Hx as [Hx|Hx]; [apply in_app_or in Hx as [Hx|[Hx|[]]]|].
+    + exfalso. apply (Hnot_pre' _ _ Hx).
+    + injection Hx as <- _ _. lia.
+    + apply Hpost in Hx. exact Hx.
+  - right. assert (Hte : In (tt, EHard) sch) by (apply Hin_sch; apply in_or_app; right; left; reflexivity).
+    pose proof (sch_hard_time _ _ _ _ _ Hs Hte) as ->. split; [reflexivity|]. split; [reflexivity|].
+    intros p1 v1 Hp1 Hg1. pose proof (Hall p1 v1 Hp1 Hg1) as Hx. rewrite E in Hx.
+    apply in_app_or in Hx as [Hx|Hx]; [apply in_app_or in Hx as [Hx|[Hx|[]]]|].
+    + exfalso. apply (Hnot_pre' _ _ Hx).
+    + discriminate Hx.
+    + apply Hpost in Hx. exact Hx.
+Qed.
